@@ -151,3 +151,56 @@ def _bits(t):
         return c << sh, [(src, lo, wd, d + sh) for (src, lo, wd, d) in s]
     # a leaf (atom or arg + k): all of its bits, as wide as its range says
     return 0, [(t, 0, _width(t), 0)]
+
+
+def packing_defects(t, total_bits, ranges):
+    """for a bit-packed field (an `or` of shifted components): [reason] for every way a component can corrupt the field
+    under the given value ranges - two components that can set the same bit, or a component whose value can need more
+    bits than the field leaves it (the excess is cut off by the narrowing to the field's width)"""
+    saved = sym.CTX; sym.CTX = ranges
+    out = []
+    try:
+        def comps(x):
+            if x[0] == 'or': return comps(x[1]) + comps(x[2])
+            return [x]
+        inner = t
+        while inner[0] == 'trunc': inner = inner[1]
+        cs = comps(inner)
+        if len(cs) < 2: return []
+        used = {}
+        for c in cs:
+            lo, hi = rng(c)
+            if lo < 0 or hi >= sym.BIG:
+                out.append('component %s is unbounded' % show(c)); continue
+            if hi >= (1 << total_bits):
+                out.append('component %s can reach %#x, which does not fit the %d-bit field' % (show(c), hi, total_bits))
+            for u in subterms(c):
+                if u[0] == 'trunc' and rng(u[1])[1] >= (1 << u[2]):
+                    out.append('component %s is cut to %d bits but can reach %#x (bits of the caller\'s value are dropped)' % (show(u[1]), u[2], rng(u[1])[1])); break
+            # bits the component can set: for a shifted value v << k with v <= m these are k .. k + bitlen(m) - 1
+            k = 0; v = c
+            while True:
+                if v[0] == 'lin' and len(v[1]) == 1 and v[2] == 0 and v[1][0][1] > 0 and (v[1][0][1] & (v[1][0][1] - 1)) == 0:
+                    k += v[1][0][1].bit_length() - 1; v = v[1][0][0]
+                elif v[0] == 'trunc': v = v[1]
+                else: break
+            def leaves(x):
+                # the finitely many values of an ite-tree of constants, else None
+                if x[0] == 'c': return {x[1]}
+                if x[0] == 'ite':
+                    a, b_ = leaves(x[2]), leaves(x[3])
+                    return None if a is None or b_ is None else a | b_
+                return None
+            lv = leaves(v)
+            if lv is not None:
+                bits = {b + k for val in lv for b in range(64) if (val >> b) & 1}
+            else:
+                vhi = rng(v)[1]
+                bits = set(range(k, k + max(vhi.bit_length(), 0)))
+            for b in bits:
+                if b in used and used[b] != c:
+                    out.append('components %s and %s can both set bit %d' % (show(used[b]), show(c), b)); break
+            for b in bits: used.setdefault(b, c)
+    finally:
+        sym.CTX = saved
+    return out
